@@ -24,7 +24,7 @@ func init() {
 //
 // (3) with items no larger than 5% of the capacity: bytes held within the capacity.
 //
-//verif:harness C05.put_step unwind=60 timeout=120
+//verif:harness C05.put_step unwind=60 timeout=240/600 wall=1200/3600
 //verif:use kv
 //verif:param N=2/3
 func vhC05PutStep() {
@@ -38,7 +38,7 @@ func vhC05PutStep() {
 	vsAssume(s.record <= vhCap)      // a put that returned left the counter within capacity
 	id := vsBytesN("id", 32)
 	vsAssume(!bytes.Equal(id, node[:]))
-	ln := vsU64("len")
+	ln := uint64(vsU32("len") & 0x1fffff) // lengths are below 2^21 (assumed below); narrow terms help the solver
 	vsAssume(ln <= 2*vhCap)
 	content := vsBytesN("content", int(ln))
 	key := xor(id, node[:])
@@ -136,7 +136,7 @@ func vhC06PebbleAdmission() {
 // C06 on the store: (c) after a put that pruned, every retained item lies within the new radius
 // (big-endian XOR distance <= radius) and the radius did not grow.
 //
-//verif:harness C06.pebble_radius unwind=60 timeout=120
+//verif:harness C06.pebble_radius unwind=60 timeout=240/600 wall=1200/3600
 //verif:use kv
 //verif:param N=2/3
 func vhC06PebbleRadius() {
@@ -147,7 +147,7 @@ func vhC06PebbleRadius() {
 	vsAssume(s.record >= s.kv.held() && s.record <= vhCap)
 	id := vsBytesN("id", 32)
 	vsAssume(!bytes.Equal(id, node[:]))
-	ln := vsU64("len")
+	ln := uint64(vsU32("len") & 0x1fffff) // lengths are below 2^21 (assumed below); narrow terms help the solver
 	vsAssume(ln <= vhCap)
 	err := cs.Put(nil, id, vsBytesN("content", int(ln)))
 	if err != nil {
